@@ -21,7 +21,9 @@ EXPLANATION = (
     "when flagged (C08); (d) multi-frame: skippable frames are skipped with a non-panicking get(len..) that errors "
     "with FailedToSkipFrame, every other init error is returned, TargetTooSmall is tested after each drain, the "
     "loop runs while input is non-empty; decode_all_to_vec restores the vector length on the error arm and clamps "
-    "on success. Not decided: the behaviour at every individual truncation point (follows from (a)-(c) only "
+    "on success; (e) the slice-to-slice call parses a block header, a block body and the checksum exactly when 3 / "
+    "content_size / 4 bytes are left (the exact set of length conditions at each site). "
+    "Not decided: the behaviour at every individual truncation point (follows from (a)-(c) only "
     "informally).")
 ASSUMPTIONS = ["std::io::Read::read_exact reads exactly the slice length or fails (std); the no_std replacement has the same "
                "loop-exit structure (C18/C03 check it)"]
